@@ -22,7 +22,12 @@ impl super::Import for Local {
         } else if let Some(name) = self.get_name() {
             res.push(name);
         } else {
-            res.push(self.path.file_name().unwrap());
+            res.push(self.path.file_name().ok_or_else(|| {
+                anyhow!(
+                    "import path \"{}\" has no final component to name the import after (set \"name\" or \"dldir\")",
+                    self.path
+                )
+            })?);
         }
         Ok(res)
     }
@@ -46,7 +51,9 @@ impl super::Import for Local {
             std::fs::create_dir_all(path_parent).with_context(|| format!("creating {path}"))?;
 
             let link_target = if self.path.is_relative() {
-                pathdiff::diff_utf8_paths(&self.path, path_parent).unwrap()
+                pathdiff::diff_utf8_paths(&self.path, path_parent).ok_or_else(|| {
+                    anyhow!("cannot express import path \"{}\" relative to {path_parent}", self.path)
+                })?
             } else {
                 self.path.clone()
             };
